@@ -74,6 +74,7 @@ UNITS = {
     "C15": [
         {"name": "C15_FN", "test": "TestC15_FN", "quick": 10000, "thorough": 600000, "shards": 8},
         {"name": "C15_BIN", "test": "TestC15_BIN", "quick": 150, "thorough": 6000, "shards": 2, "bin": True},
+        {"name": "C15_EXPIRY", "test": "TestC15_EXPIRY", "quick": 4, "thorough": 32, "shards": 4},
         {"name": "C15_FUZZ", "test": "FuzzUserToken", "quick": 0, "thorough": 0, "shards": 1, "fuzz": True, "fuzztime_thorough": "120s", "exclusive": True},
     ],
     "C16": [
